@@ -28,9 +28,10 @@ def self_test():
 
 def _expected(seqs, seqs2, k, mode):
     import collections
-    if mode == "custom":          # callable custom distance 2*lev, infinite radius
+    if mode in ("custom", "customf"):          # callable custom distance 2*lev (or 0.5*lev: non-integer values), infinite radius
         base = O.neigh_self(seqs, k) if seqs2 is None else O.neigh_cross(seqs2, seqs, k)
-        return collections.Counter({(i, j, 2 * d): c for (i, j, d), c in base.items()})
+        f = 2 if mode == "custom" else 0.5
+        return collections.Counter({(i, j, O.num(f * d)): c for (i, j, d), c in base.items()})
     m = "lev" if mode == "lev" else "ham"
     if seqs2 is None:
         return O.neigh_self(seqs, k, m)
@@ -44,6 +45,9 @@ def _kw(k, mode, seqs2=None, out=None):
     if mode == "custom":
         from vmon import dists
         kw["custom_distance"] = dists.lev2
+    if mode == "customf":
+        from vmon import dists
+        kw["custom_distance"] = dists.halflev
     if seqs2 is not None:
         kw["seqs2"] = seqs2
     if out:
@@ -195,7 +199,7 @@ def generate(tier, seed):
         for c in ("series_shifted", "series_string", "ndarray_U"):
             yield "container", {"engine": eng, "seqs": W1, "seqs2": W2, "k": 1, "mode": "custom", "container": c, "container2": c}, True
     for eng in ENGINES:
-        for mode in ("lev", "hamming"):
+        for mode in ("lev", "hamming", "customf"):
             yield "formats", {"engine": eng, "seqs": W1, "k": 1, "mode": mode}, True
             yield "formats", {"engine": eng, "seqs": W1, "k": 2, "mode": mode}, True
             for c in G.CONTAINERS:
@@ -230,7 +234,7 @@ def generate(tier, seed):
         if len(seqs) == 2:
             seqs.append(rng.choice(pool))
         k = rng.choice([1, 1, 2])
-        mode = rng.choice(["lev", "lev", "hamming", "custom"])
+        mode = rng.choice(["lev", "lev", "hamming", "custom", "customf"])
         cross = i % 3 == 0
         eng = rng.choice(CROSS_ENGINES + ["SymdelDB.lookup", "LookupDB.lookup"] if cross else ENGINES)
         seqs2 = None
